@@ -12,8 +12,8 @@
    task by task (= version by version) as a multiset of (file, diagnostics) - settled mode, burst mode, and burst
    mode with holds that try to make an earlier diagnostics task finish after a later one;
 4. oracle (the property itself, no model): at quiescence the last publication of every file of the final workspace
-   equals its ide-level diagnostics and carries the last version; the last publication of every other file is
-   empty; per file the versions never decrease.
+   equals its ide-level diagnostics; the last publication of every other file is empty; per file the versions
+   never decrease.  (Which version number a publication carries is compared in step 3 only.)
 """
 import json
 import time
@@ -216,9 +216,6 @@ def oracle(stream, final_map, n_notif):
         elif last[p][1] != ds:
             bad.append({"what": "last publication differs from the diagnostics of the final state", "file": p,
                         "expected": ds, "observed": last[p][1], "version": last[p][0]})
-        elif last[p][0] != n_notif - 1:
-            bad.append({"what": "last publication of a file of the final workspace does not carry the last version",
-                        "file": p, "expected_version": n_notif - 1, "observed_version": last[p][0]})
     for p, (v, ds) in last.items():
         if p not in final_map and ds:
             bad.append({"what": "stale diagnostics: the file is not part of the final workspace but its last publication is not empty",
